@@ -188,11 +188,16 @@ def run_trainer(sg, E, NB, NV, NT, evaluator_mode, callbacks, seed, do_fit=True,
     import contextlib
     with (sg.no_grad() if ambient == "ctor_in_no_grad" else contextlib.nullcontext()):
         trainer = Trainer(ModelProxy(model, rec), EngineProxy(sg, rec))
-        evaluator = Evaluator(accuracy=True, mode=Evaluator.MULTI_CLASS) if evaluator_mode else None
+        if evaluator_mode == "custom":
+            # user metrics next to the built-in accuracy: one computed per epoch, one per step
+            evaluator = Evaluator(epoch_callback=lambda yt, yp: [("error_rate", float((yt != yp).mean()))],
+                                  step_callback=lambda yt, yp: [("step_errors", int((yt != yp).sum()))], accuracy=True, mode=Evaluator.MULTI_CLASS)
+        else:
+            evaluator = Evaluator(accuracy=True, mode=Evaluator.MULTI_CLASS) if evaluator_mode else None
         trainer.compile(CriterionProxy(crit, rec), OptProxy(opt, rec), evaluator)
     rec.trainer = trainer
     trace = dict(cfg=dict(E=E, NB=NB, NV=NV, NT=NT), tr0=bool(model.training), fit=bool(do_fit), ev=rec.ev)
-    info = dict(E=E, NB=NB, NV=NV, NT=NT, evaluator=bool(evaluator_mode), callbacks=callbacks, seed=seed, ambient=ambient, do_fit=do_fit, loader_kind=loader_kind)
+    info = dict(E=E, NB=NB, NV=NV, NT=NT, evaluator=(evaluator_mode if evaluator_mode == "custom" else bool(evaluator_mode)), callbacks=callbacks, seed=seed, ambient=ambient, do_fit=do_fit, loader_kind=loader_kind)
 
     # hooks that live outside the repository: Tensor.backward wrapper and the progress bar
     orig_bw = sg.Tensor.backward
